@@ -353,6 +353,9 @@ def run_config(cfg, depth, res, only=None):
     ops = ops_for(kind)
     seen = set()
     kinds = {}
+    base_depth = depth
+    if kind != "list":
+        depth = depth + 1  # one extra level restricted to update...clear...update histories
     for L in range(1, depth + 1):
         for seq in itertools.product(ops, repeat=L):
             if only is not None and list(seq) != list(only):
@@ -361,6 +364,8 @@ def run_config(cfg, depth, res, only=None):
                 continue  # only sequences ending in update are observable; prefixes are covered by shorter sequences
             if any(a == b and a in ("update", "clear") for a, b in zip(seq, seq[1:])):
                 continue  # prune no-op repeats
+            if L > base_depth and not ("clear" in seq[1:-1] and "update" in seq[: seq.index("clear")]):
+                continue  # extra level: only histories that update, clear and update again (stale-conditioning patterns)
             model = make_model(kind, d, m, nz)
             held = empty_held(kind, m)
             data_at_update = None
